@@ -70,7 +70,7 @@ Definition oracle (c : c20case) (impl : c20out) : bool :=
 
 Definition corr (c : c20case) (impl : c20out) : bool :=
   match c, impl with
-  | C20P pc, C20PO p => corr_exact pc p
+  | C20P pc, C20PO p => corr_ops pc p
   | C20S sc, C20SO so => sout_eqb (model_sout sc) so
   | _, _ => false
   end.
